@@ -95,4 +95,9 @@ def fdwraLoop (p : FdwraParams α) : Nat → Nat → HvTrad α → Except String
 def fdwraTrad (p : FdwraParams α) (s : HvTrad α) : Except String (Nat × HvTrad α × List (FdwraTrace α)) :=
   fdwraLoop p p.maxIter 0 (updatePeaks p.range false s)
 
+/-- the same call with `find_peaks_kwargs` given explicitly: `kwEmpty = true` is `find_peaks_kwargs={}`, for which the entry peak search is skipped when the
+stored range already equals the requested one (`fdwraTrad p s = fdwraTradKw p false s` by definition) -/
+def fdwraTradKw (p : FdwraParams α) (kwEmpty : Bool) (s : HvTrad α) : Except String (Nat × HvTrad α × List (FdwraTrace α)) :=
+  fdwraLoop p p.maxIter 0 (updatePeaks p.range kwEmpty s)
+
 end HV
